@@ -6,7 +6,7 @@ use parity_scale_codec::{
 	MemTrackingInput, Output,
 };
 use refmodel::{Shape, Value};
-use std::{cell::RefCell, collections::BTreeSet};
+use std::cell::RefCell;
 
 // ------------------------------------------------------------------------------------------
 // Twin<T>: same wire format as T, but invisible to the fake specialisation (TYPE_INFO = Unknown),
@@ -68,10 +68,13 @@ impl Decode for RestLen {
 // Tracked: a droppable element with a construction/drop ledger. Its decoder obeys a command byte.
 // ------------------------------------------------------------------------------------------
 
+/// Construction/drop ledger. It never allocates while a decode is being observed (the live set is a
+/// preallocated bitmap), so that the harness's allocation accounting sees only the subject.
 #[derive(Default, Debug)]
 pub struct Ledger {
 	pub next_id: u64,
-	pub live: BTreeSet<u64>,
+	pub live: Vec<bool>,
+	pub live_count: u64,
 	pub constructed: u64,
 	pub dropped: u64,
 	pub errors: Vec<String>,
@@ -81,14 +84,29 @@ thread_local! {
 	pub static LEDGER: RefCell<Ledger> = RefCell::new(Ledger::default());
 }
 
+pub const LEDGER_CAP: usize = 1 << 16;
+
 pub fn ledger_reset() {
-	LEDGER.with(|l| *l.borrow_mut() = Ledger::default());
+	LEDGER.with(|l| {
+		let mut l = l.borrow_mut();
+		l.next_id = 0;
+		l.live_count = 0;
+		l.constructed = 0;
+		l.dropped = 0;
+		l.errors.clear();
+		if l.live.len() != LEDGER_CAP {
+			l.live = vec![false; LEDGER_CAP];
+		} else {
+			l.live.iter_mut().for_each(|x| *x = false);
+		}
+	});
 }
 
-pub fn ledger_snapshot() -> (u64, u64, Vec<u64>, Vec<String>) {
+/// (constructed, dropped, number live, errors)
+pub fn ledger_snapshot() -> (u64, u64, u64, Vec<String>) {
 	LEDGER.with(|l| {
 		let l = l.borrow();
-		(l.constructed, l.dropped, l.live.iter().copied().collect(), l.errors.clone())
+		(l.constructed, l.dropped, l.live_count, l.errors.clone())
 	})
 }
 
@@ -112,7 +130,10 @@ impl Tracked {
 			let id = l.next_id;
 			l.next_id += 1;
 			l.constructed += 1;
-			l.live.insert(id);
+			if (id as usize) < l.live.len() {
+				l.live[id as usize] = true;
+			}
+			l.live_count += 1;
 			Tracked { id, tag, heap: Box::new(id) }
 		})
 	}
@@ -129,7 +150,11 @@ impl Drop for Tracked {
 				if heap != id {
 					l.errors.push(format!("instance {} dropped with corrupted heap block {}", id, heap));
 				}
-				if !l.live.remove(&id) {
+				let was_live = (id as usize) < l.live.len() && l.live[id as usize];
+				if was_live {
+					l.live[id as usize] = false;
+					l.live_count -= 1;
+				} else {
 					l.errors.push(format!("instance {} dropped twice or never constructed", id));
 				}
 			}
